@@ -88,11 +88,12 @@ var Keys = []string{"k1", "k2", "k3", "k4", ""}
 
 // Method describes one configured (or unconfigured) method name.
 type Method struct {
-	Name string
-	Cmd  string // "", BIND, BOUND, UNBIND
-	Path string
-	List bool // locator names the repeated field
-	Bad  bool // locator does not resolve to a string
+	Name    string
+	Cmd     string // "", BIND, BOUND, UNBIND
+	Path    string
+	List    bool   // locator names the repeated field
+	Bad     bool   // locator does not resolve to a string
+	AliasOf string // listed as a further name in the method entry of AliasOf
 }
 
 // Methods is the method table of the standard configuration.
@@ -107,6 +108,9 @@ var Methods = []Method{
 	{Name: "/badloc", Cmd: "BOUND", Path: "nope.x", Bad: true},
 	{Name: "/intloc", Cmd: "UNBIND", Path: "num", Bad: true},
 	{Name: "/unknown"},
+	{Name: "/bound2", Cmd: "BOUND", Path: "key", AliasOf: "/bound"},
+	{Name: "/bind2", Cmd: "BIND", Path: "key", AliasOf: "/bind"},
+	{Name: "/unbind2", Cmd: "UNBIND", Path: "key", AliasOf: "/unbind"},
 }
 
 // Msg is the request/response message shape used by the pool histories.
@@ -145,10 +149,16 @@ func (c Config) JSON() string {
 	if c.Methods != "none" {
 		var ms []string
 		for _, m := range Methods {
-			if m.Cmd == "" {
+			if m.Cmd == "" || m.AliasOf != "" {
 				continue
 			}
-			ms = append(ms, fmt.Sprintf(`{"name":[%q],"affinity":{"command":%q,"affinityKey":%q}}`, m.Name, m.Cmd, m.Path))
+			names := fmt.Sprintf("%q", m.Name)
+			for _, a := range Methods {
+				if a.AliasOf == m.Name {
+					names += fmt.Sprintf(",%q", a.Name)
+				}
+			}
+			ms = append(ms, fmt.Sprintf(`{"name":[%s],"affinity":{"command":%q,"affinityKey":%q}}`, names, m.Cmd, m.Path))
 		}
 		parts = append(parts, `"method":[`+strings.Join(ms, ",")+`]`)
 	}
